@@ -82,7 +82,7 @@ def run_property(prop, tier, seed, args):
     opts = {
         "max_paths": settings.get("max_paths", 4096 if tier == "quick" else 65536),
         "witness_every": settings.get("witness_every", 1),
-        "case_budget": settings.get("case_budget", 60.0 if tier == "quick" else 120.0),
+        "case_budget": settings.get("case_budget", 60.0 if tier == "quick" else 600.0),
     }
     qt = settings.get("query_timeout_ms", 20000 if tier == "quick" else 120000)
     budget = float(os.environ.get("VERIF_BUDGET_S", settings.get("budget_s", 300 if tier == "quick" else 1500)))
